@@ -161,6 +161,8 @@ def vnadata_script(seed):
         s.op("vnadata_get_format $vd")
         s.op("vnadata_cksave $vd %s" % qs(path))
         s.op("vnadata_save $vd %s" % qs(path))
+        # (a type-less format is completed by the save)
+        s.op("vnadata_get_format $vd")
         s.op("read_file %s" % qs(path))
         s.op("vl=vnadata_alloc")
         s.op("vnadata_load $vl %s" % qs(path))
